@@ -36,9 +36,10 @@ CLAIMS = {
 CLAIMS["C15"] = ("sufficient condition decided instead of interleavings: with no monitor supplied no reachable instruction writes package-level state (every store / map update / "
                  "in-place append / RNG step whose target is a package-level variable or an object allocated by a package initialiser is a query); a sat answer is confirmed "
                  "natively by concurrent calls under the race detector. Schedules themselves are not explored", "5 C15")
-NA = {
-    "C20": "termination and containment of FitSpline/tryfit (hypot, normalisation, trigonometric root branch, unbounded recursion) cannot be encoded within reach; the algebraic root-finder part is in progress",
-}
+CLAIMS["C20"] = ("PARTIAL: only the last sentence of the property (root finder) and only its algebraic branches are decided - solve1/solve2 sound and complete, solve3 Cardano "
+                 "branch (discriminant >= 0) sound and complete - in exact real arithmetic with z3 5.1.0 nlsat on the real code. Termination of FitSpline and containment of "
+                 "the fitted curve (hypot, normalisation, trigonometric root branch, unbounded recursion) cannot be encoded within reach and are NOT decided", "6")
+NA = {}
 
 checks = []
 for p in props:
